@@ -163,6 +163,8 @@ func (w *Worker) runPath(it workItem) (res *PathResult) {
 			if m != nil {
 				c := &cexRec{Label: in.res.Outcome, Kind: in.res.Outcome, Values: in.snapshotModel(m), Choices: in.choiceList(), Detail: in.res.Msg, PC: in.pcString()}
 				if in.res.Outcome == "end" {
+					c.Reach = in.res.Reach
+					c.Observe = in.observeLog
 					in.res.Sample = c
 				} else {
 					in.res.Cex = append(in.res.Cex, c)
@@ -253,7 +255,7 @@ func Explore(prog *ssa.Program, harness *ssa.Function, cfg *Config, redirect map
 			rr.Reach[l] += n
 		}
 		rr.Cex = append(rr.Cex, p.Cex...)
-		if p.Sample != nil && len(rr.Samples) < 5 {
+		if p.Sample != nil && (len(rr.Samples) < 12 || (p.Decisions > 0 && len(rr.Samples) < 24 && rr.Paths%97 == 0)) {
 			rr.Samples = append(rr.Samples, p.Sample)
 		}
 		if cfg.Concrete != nil {
